@@ -8,6 +8,12 @@ same path …"
 Model: `StubGen.Model.Files` (`generateModules`, `stubPath`, `createOutsidePackageClass`, `createStubFiles`)
 and `StubGen.Model.Gen` (`packageHeader`, `createModuleString`, `createReexportElements`).
 Proof machinery: `StubGen.Proofs.Files`.
+
+The package declaration writes the (converted) path with every dot-segment that is a Safe-DS keyword in
+back-quotes (`escapePath`); the `@PythonModule` annotation has the Python path verbatim.  The path is read back
+from the annotation when there is one, else from the package line with `unescapePath`
+(`unescapePath_escapePath`, `header_recovers_python_module`, `header_determines_python_module`); all of this
+for paths without back-quotes (counterexample below).
 -/
 import StubGen.Proofs.Files
 
@@ -17,12 +23,38 @@ open StubGen
 
 /-! ### 7. the header announces the Python module path -/
 
-/-- The Python module path `pkg` is written into the header verbatim: in the package declaration when the
-    naming convention leaves it unchanged, in the `@PythonModule` annotation otherwise. -/
+/-- reading a package line back: the back-quotes that escape Safe-DS keywords are stripped from every
+    dot-segment (`pf_unescapePath` of `StubGen.Proofs.Files`) -/
+abbrev unescapePath (p : String) : String := pf_unescapePath p
+
+/-- `unescapePath` undoes `escapePath` (on paths without back-quotes) … -/
+theorem unescapePath_escapePath (p : String) (h : '`' ∉ p.toList) : unescapePath (escapePath p) = p :=
+  pf_unescapePath_escapePath p h
+
+/-- … and `escapePath` writes a path verbatim when none of its dot-segments is a Safe-DS keyword. -/
+theorem escapePath_of_no_keyword (p : String) (h : ∀ s ∈ splitDot p, s ∉ Generated.keywords) : escapePath p = p :=
+  pf_escapePath_eq_self p h
+
+/-- segment by segment: the dot-segments of the escaped path are the dot-segments of the path, a keyword `k`
+    written as `` `k` `` -/
+theorem escapePath_segments (p : String) :
+    splitDot (escapePath p) = (splitDot p).map escapeKeyword
+    ∧ ∀ s, (s ∉ Generated.keywords → escapeKeyword s = s)
+         ∧ (s ∈ Generated.keywords → (escapeKeyword s).toList = '`' :: (s.toList ++ ['`'])) := by
+  refine ⟨pf_splitDot_escapePath p, fun s => ⟨pf_escapeKeyword_of_not_keyword s, fun hk => ?_⟩⟩
+  rcases pf_escapeKeyword_toList s with ⟨hn, _⟩ | ⟨_, e⟩
+  · exact absurd hk hn
+  · exact e
+
+/-- The Python module path `pkg` is written into the header: in the package declaration (keyword segments
+    back-quoted) when the naming convention leaves it unchanged, verbatim in the `@PythonModule` annotation
+    otherwise.  In both cases `pkg` is recoverable from the header: from the annotation if there is one, else
+    from the package line by `unescapePath` (`header_recovers_python_module`). -/
 theorem header_announces_python_module (env : Env) (pkg : String) :
-    (convertName pkg env.safe = pkg → packageHeader env pkg = "package " ++ pkg ++ "\n")
+    (convertName pkg env.safe = pkg → packageHeader env pkg = "package " ++ escapePath pkg ++ "\n")
     ∧ (convertName pkg env.safe ≠ pkg →
-        packageHeader env pkg = "@PythonModule(\"" ++ pkg ++ "\")\npackage " ++ convertName pkg env.safe ++ "\n") := by
+        packageHeader env pkg
+          = "@PythonModule(\"" ++ pkg ++ "\")\npackage " ++ escapePath (convertName pkg env.safe) ++ "\n") := by
   unfold packageHeader
   constructor
   · intro h
@@ -33,18 +65,40 @@ theorem header_announces_python_module (env : Env) (pkg : String) :
     rw [← String.append_assoc (s₁ := "\")\n") (s₂ := "package ")]
     rfl
 
+/-- The header in the three shapes it can take, each with the way the Python module path is read back:
+    (a) no annotation, no keyword segment: the package line is the path verbatim (the statement for the
+        generator without keyword escaping of package paths);
+    (b) no annotation: the package line is `escapePath pkg`, and `unescapePath` of it is `pkg`;
+    (c) annotation: it contains `pkg` verbatim. -/
+theorem header_recovers_python_module (env : Env) (pkg : String) :
+    (convertName pkg env.safe = pkg → (∀ s ∈ splitDot pkg, s ∉ Generated.keywords) →
+        packageHeader env pkg = "package " ++ pkg ++ "\n")
+    ∧ (convertName pkg env.safe = pkg → '`' ∉ pkg.toList →
+        ∃ line, packageHeader env pkg = "package " ++ line ++ "\n" ∧ unescapePath line = pkg)
+    ∧ (convertName pkg env.safe ≠ pkg →
+        ∃ line, packageHeader env pkg = "@PythonModule(\"" ++ pkg ++ "\")\npackage " ++ line ++ "\n") := by
+  refine ⟨fun h hk => ?_, fun h hb => ?_, fun h => ?_⟩
+  · rw [(header_announces_python_module env pkg).1 h, escapePath_of_no_keyword pkg hk]
+  · exact ⟨escapePath pkg, (header_announces_python_module env pkg).1 h, unescapePath_escapePath pkg hb⟩
+  · exact ⟨_, (header_announces_python_module env pkg).2 h⟩
+
 /-- without the Safe-DS naming convention there is never an annotation -/
 theorem header_without_convention (env : Env) (pkg : String) (h : env.safe = false) :
-    packageHeader env pkg = "package " ++ pkg ++ "\n" := by
+    packageHeader env pkg = "package " ++ escapePath pkg ++ "\n" := by
   apply (header_announces_python_module env pkg).1
   simp [convertName, h]
 
 /-- The announced path is recoverable: two stub texts that start with the headers for `p₁` and `p₂` (paths
-    without `"` and line breaks) announce the same Python module path. -/
+    without `"`, line breaks and back-quotes) announce the same Python module path. -/
 theorem header_determines_python_module (env : Env) (p₁ p₂ rest₁ rest₂ : String)
     (h1 : '"' ∉ p₁.toList ∧ '\n' ∉ p₁.toList) (h2 : '"' ∉ p₂.toList ∧ '\n' ∉ p₂.toList)
+    (hb1 : '`' ∉ p₁.toList) (hb2 : '`' ∉ p₂.toList)
     (h : packageHeader env p₁ ++ rest₁ = packageHeader env p₂ ++ rest₂) : p₁ = p₂ :=
-  packageHeader_inj env p₁ p₂ rest₁ rest₂ h1 h2 h
+  packageHeader_inj env p₁ p₂ rest₁ rest₂ h1 h2 hb1 hb2 h
+
+/-- COUNTEREXAMPLE without the back-quote condition: the paths `` `as` `` and `as` have the same header. -/
+example : packageHeader { api := { package := "p" }, safe := false } "`as`"
+    = packageHeader { api := { package := "p" }, safe := false } "as" := by decide +kernel
 
 /-! ### 8. the shape of a stub path -/
 
@@ -127,6 +181,16 @@ theorem dir_segments_are_dot_segments (pkg : String) (h : '/' ∉ pkg.toList) :
     splitSlash (replaceChar pkg '.' "/") = splitDot pkg :=
   splitSlash_replaceChar_dot pkg h
 
+/-- … and they are the dot-segments of the package line `escapePath pkg` with the back-quotes stripped:
+    the directory spells the announced path segment by segment also where a segment is an escaped keyword -/
+theorem dir_segments_are_unescaped_package_segments (pkg : String) (h : '/' ∉ pkg.toList) (hb : '`' ∉ pkg.toList) :
+    splitSlash (replaceChar pkg '.' "/") = (splitDot (escapePath pkg)).map pf_unescapeSegment := by
+  rw [splitSlash_replaceChar_dot pkg h, pf_splitDot_escapePath, List.map_map]
+  conv => lhs; rw [← List.map_id (splitDot pkg)]
+  apply List.map_congr_left
+  intro s hs
+  exact (pf_unescapeSegment_escapeKeyword s (fun hx => hb (mem_of_mem_pySplit '.' pkg s hs '`' hx))).symm
+
 /-- so, for a module stub, the path is: the dot-segments of the announced module path that are not empty,
     then the file name -/
 theorem module_stub_path (d : StubData) (pkg : String) (hp : d.isPackageModule = false)
@@ -144,7 +208,8 @@ theorem module_stub_path (d : StubData) (pkg : String) (hp : d.isPackageModule =
 /-! ### 9. placeholder stubs for classes of other libraries -/
 
 /-- For class path `cp = s₁.….sₙ.C` the placeholder goes to `s₁/…/sₙ/sₙ.sdsstub`, and a freshly written
-    file starts with the header announcing `s₁.….sₙ`. -/
+    file starts with the header announcing `s₁.….sₙ` (`header_announces_python_module`; for the segments of
+    its package line see `placeholder_package_line_spells_dir`). -/
 theorem placeholder_path_spells_package (env : Env) (cp : String) (created existing : List String) (op : WriteOp)
     (created' : List String)
     (h : createOutsidePackageClass env.safe cp created existing = .ok (op, created')) :
@@ -187,6 +252,29 @@ theorem placeholder_path_spells_package (env : Env) (cp : String) (created exist
     apply pySplit_joinWith '.' "." (by decide) _ hne
     intro s hs
     exact sep_not_mem_pySplit '.' cp s (mem_dropLast' s _ hs)
+
+/-- The package line of a placeholder, segment by segment: for the announced path
+    `pkg = s₁.….sₙ` (which the convention leaves unchanged, else it is in the annotation) the line is
+    `escapePath pkg`, its dot-segments are the `sᵢ` with keywords back-quoted, and stripping the back-quotes
+    gives the directory segments back. -/
+theorem placeholder_package_line_spells_dir (cp : String) (hne : dropLast' (splitDot cp) ≠ []) :
+    splitDot (escapePath (joinWith "." (dropLast' (splitDot cp)))) = (dropLast' (splitDot cp)).map escapeKeyword
+    ∧ ('`' ∉ cp.toList →
+        splitDot (unescapePath (escapePath (joinWith "." (dropLast' (splitDot cp))))) = dropLast' (splitDot cp)) := by
+  have hsplit : splitDot (joinWith "." (dropLast' (splitDot cp))) = dropLast' (splitDot cp) := by
+    unfold splitDot
+    apply pySplit_joinWith '.' "." (by decide) _ hne
+    intro s hs
+    exact sep_not_mem_pySplit '.' cp s (mem_dropLast' s _ hs)
+  refine ⟨by rw [pf_splitDot_escapePath, hsplit], fun hb => ?_⟩
+  rw [unescapePath_escapePath _ ?_, hsplit]
+  intro hx
+  rw [toList_joinWith] at hx
+  rcases pf_mem_joinL _ _ _ hx with h | ⟨q, hq, hxq⟩
+  · exact absurd h (by decide)
+  · rw [List.mem_map] at hq
+    obtain ⟨t, ht, rfl⟩ := hq
+    exact hb (mem_of_mem_pySplit '.' cp t (mem_dropLast' t _ ht) '`' hxq)
 
 /-- `path_parts[-1]` raises `IndexError` exactly for class paths without a dot; there is no other error. -/
 theorem placeholder_error_iff (safe : Bool) (cp : String) (created existing : List String) (e : PyErr) :
@@ -346,6 +434,16 @@ example : packageHeader { api := { package := "p" }, safe := true } "pkg.mod" = 
 example : packageHeader { api := { package := "p" }, safe := false } "my_pkg.sub_mod" = "package my_pkg.sub_mod\n" := by
   decide +kernel
 
+/-- keyword segments (`sub`, `internal`) are back-quoted in the package line, never in the annotation -/
+example : packageHeader { api := { package := "p" }, safe := true } "pkg.sub.internal"
+    = "package pkg.`sub`.`internal`\n" := by decide +kernel
+example : packageHeader { api := { package := "p" }, safe := true } "my_pkg.sub.internal"
+    = "@PythonModule(\"my_pkg.sub.internal\")\npackage myPkg.`sub`.`internal`\n" := by decide +kernel
+example : packageHeader { api := { package := "p" }, safe := false } "my_pkg.sub.internal"
+    = "package my_pkg.`sub`.`internal`\n" := by decide +kernel
+example : unescapePath "pkg.`sub`.`internal`" = "pkg.sub.internal" := by decide +kernel
+example : escapePath "pkg.sub.internal" = "pkg.`sub`.`internal`" ∧ escapePath "pkg.mod" = "pkg.mod" := by decide +kernel
+
 example : stubPath { dir := "pkg/./sub//_mod", name := "__mod", text := "", isPackageModule := false }
     = "pkg/sub/_mod/mod.sdsstub" := by decide +kernel
 example : stubPath { dir := "pkg/sub/_Cls", name := "_Cls", text := "", isPackageModule := true }
@@ -353,6 +451,9 @@ example : stubPath { dir := "pkg/sub/_Cls", name := "_Cls", text := "", isPackag
 
 example : (createOutsidePackageClass true "np.core.Array" [] []).toOption.map (fun r => (r.1.path, r.1.mode, r.1.text, r.2))
     = some ("np/core/core.sdsstub", .write, "package np.core\n\nclass Array\n", ["np/core"]) := by decide +kernel
+example : (createOutsidePackageClass true "np.internal.Array" [] []).toOption.map (fun r => (r.1.path, r.1.mode, r.1.text, r.2))
+    = some ("np/internal/internal.sdsstub", .write, "package np.`internal`\n\nclass Array\n", ["np/internal"]) := by
+  decide +kernel
 example : createOutsidePackageClass true "Array" [] [] = .error .indexError :=
   (placeholder_error_iff _ _ _ _ _).2 ⟨by decide, rfl⟩
 
@@ -384,6 +485,28 @@ example : (runGenerator exApi true).toOption.map (fun r =>
 example : (runGenerator exApi true).toOption.map (fun r => r.stubs.map (·.text))
     = some ["/**\n * Doc.\n */\n\n@PythonModule(\"pkg.my_mod\")\npackage pkg.myMod\n\nfrom numpy.core import Array\n\n@Pure\nfun keep() -> result1: Array\n",
             "package pkg\n\n// TODO Result type information missing.\n@Pure\n@PythonName(\"do_it\")\nfun doIt()\n"] := by
+  decide +kernel
+
+/-- a run with the module id `pkg/sub/internal`, two segments of which are Safe-DS keywords: the directory is
+    spelled with the plain segments, the package line (and the `from` part of the import) with the escaped ones -/
+private def exApiKw : API :=
+  { package := "pkg",
+    modules := [
+      { id := "pkg/sub/internal", name := "internal",
+        functions := [
+          { id := "pkg/sub/internal/f", name := "f", isPublic := true,
+            results := [{ id := "r", name := "result_1", type := some (.named "Array" "numpy.internal.Array") }] }] }] }
+
+example : (runGenerator exApiKw true).toOption.map (fun r =>
+      (r.stubs.map (fun d => (d.dir, d.name, d.isPackageModule, stubPath d)), r.ops.map (fun o => (o.path, o.mode))))
+    = some ([("pkg/sub/internal", "internal", false, "pkg/sub/internal/internal.sdsstub")],
+            [("pkg/sub/internal/internal.sdsstub", .write), ("numpy/internal/internal.sdsstub", .write)]) := by
+  decide +kernel
+
+example : (runGenerator exApiKw true).toOption.map (fun r => (r.stubs.map (·.text), r.ops.map (·.text)))
+    = some (["package pkg.`sub`.`internal`\n\nfrom numpy.`internal` import Array\n\n@Pure\nfun f() -> result1: Array\n"],
+            ["package pkg.`sub`.`internal`\n\nfrom numpy.`internal` import Array\n\n@Pure\nfun f() -> result1: Array\n",
+             "package numpy.`internal`\n\nclass Array\n"]) := by
   decide +kernel
 
 end Examples
